@@ -229,10 +229,10 @@ fn determine_target(
 
     let mut host_header: Option<String> = None;
     for header in headers {
-        if let Some(rest) = header.strip_prefix("Host:") {
-            host_header = Some(rest.trim().to_string());
-            break;
-        } else if let Some(rest) = header.strip_prefix("host:") {
+        // Header field names are case-insensitive ("HOST:", "hOsT:" ...)
+        if let Some((name, rest)) = header.split_once(':')
+            && name.trim().eq_ignore_ascii_case("host")
+        {
             host_header = Some(rest.trim().to_string());
             break;
         }
